@@ -94,7 +94,8 @@ def gen_bad_action(g, dv):
   if ts:
     choices += ["unknown_col", "missing_row", "formula_write", "unknown_col_remove", "dup_id",
                 "bad_upsert", "remove_missing_table_col", "bad_type_modify", "bad_type_meta",
-                "bad_type_add", "remove_missing_table"]
+                "bad_type_add", "remove_missing_table", "bad_doc_rename_table", "bad_doc_rename_col",
+                "bad_doc_add_col"]
   kind = rng.choice(choices)
   t = rng.choice(ts) if ts else None
   if kind == "unknown_table":
@@ -136,6 +137,16 @@ def gen_bad_action(g, dv):
     return kind, ["AddColumn", t.tableId, g.new_col_id("b"), {"type": "Bogus", "isFormula": False}]
   if kind == "remove_missing_table":
     return kind, ["RemoveTable", "NoSuchTable"]
+  if kind.startswith("bad_doc_"):
+    # raw doc actions (what undo, redo and the Node side send) with an id that is no identifier:
+    # the failure strikes when the generated module is rebuilt, inside the schema doc action
+    word = rng.choice(["class", "def", "1x", "a b", "None"])
+    if kind == "bad_doc_rename_table":
+      return kind, ["ApplyDocActions", [["RenameTable", t.tableId, word]]]
+    cols = [c for c in t.user_cols() if not c.summarySourceCol]
+    if kind == "bad_doc_rename_col" and cols:
+      return kind, ["ApplyDocActions", [["RenameColumn", t.tableId, rng.choice(cols).colId, word]]]
+    return kind, ["ApplyDocActions", [["AddColumn", t.tableId, word, {"type": "Int", "isFormula": False, "formula": ""}]]]
   return kind, ["RenameColumn", t.tableId, "no_such_col", "x"]
 
 
